@@ -35,11 +35,12 @@ class RecWorld:
         self.calls.append((src, dest, attrs, kw))
 
 
-def check_many_to_one(ns, C, viol, res=None, only=None):
+def check_many_to_one(ns, C, viol, res=None, only=None, dest_in_src=False):
     from mosaik import util
     import itertools
     src = [Ent(f"s{i}") for i in range(ns)]
-    d = Ent("d")
+    d = src[ns // 2] if dest_in_src and ns else Ent("d")     # the destination may be one of the sources
+    C["many_to_one_destination_among_sources"] += int(bool(dest_in_src and ns))
     # src_set is typed Iterable[Entity]; the documentation uses itertools.chain(...) -- one-shot iterables count
     shapes = {"list": lambda: list(src), "tuple": lambda: tuple(src), "iter": lambda: iter(src),
               "chain": lambda: itertools.chain(src[:ns // 2], src[ns // 2:]),
@@ -60,17 +61,54 @@ def check_many_to_one(ns, C, viol, res=None, only=None):
                 if [c[0] for c in rw.calls] != src or any(c[1] is not d for c in rw.calls) or \
                         any(c[2] != attrs for c in rw.calls) or \
                         any(c[3].get("async_requests", False) != asy for c in rw.calls):
-                    viol("many_to_one_wrong", case={"n_src": ns, "src_set": shape, "async_requests": asy,
+                    viol("many_to_one_wrong", case={"n_src": ns, "src_set": shape, "async_requests": asy, "dest_in_src": dest_in_src,
                                                     "attrs": list(map(str, attrs))})
 
 
-def check_case(ns, nd, evenly, maxc, rseed, C, viol):
+def check_case(ns, nd, evenly, maxc, rseed, C, viol, overlap="", real=False):
     from mosaik import util
     src = [Ent(f"s{i}") for i in range(ns)]
     dest = [Ent(f"d{i}") for i in range(nd)]
     w = RecWorld()
+    if real:
+        # the real World with real entities of two in-process simulators; World.connect is recorded, then executed
+        import mosaik
+        import warnings
+        from ..build import setup_logging
+        setup_logging()
+        with warnings.catch_warnings():
+            warnings.simplefilter("ignore")
+            world = mosaik.World({"S": {"python": "vlab.sims:ScriptedSim"}}, skip_greetings=True)
+            try:
+                spec = {"type": "hybrid", "entities": [f"e{i}" for i in range(max(ns, nd, 1))],
+                        "ins": {"b": "trigger", "a": "trigger", "c": "trigger"}, "outs": {"a": "nonpersistent", "b": "nonpersistent"}}
+                fa = world.start("S", sim_id="SimA", spec=spec)
+                fb = world.start("S", sim_id="SimB", spec=spec)
+                src = list(fa.M.create(ns)) if ns else []
+                dest = list(fb.M.create(nd))
+                orig = world.connect
+                rec = RecWorld()
+
+                def recording_connect(s_, d_, *attrs, **kw):
+                    rec.calls.append((s_, d_, attrs, kw))
+                    return orig(s_, d_, *attrs, **kw)
+                world.connect = recording_connect        # type: ignore[method-assign]
+                return _check_case(util, world, rec, src, dest, ns, nd, evenly, maxc, rseed, C, viol, overlap, True)
+            finally:
+                world.shutdown()
+    return _check_case(util, w, w, src, dest, ns, nd, evenly, maxc, rseed, C, viol, overlap, False)
+
+
+def _check_case(util, world, w, src, dest, ns, nd, evenly, maxc, rseed, C, viol, overlap, real):
+    if overlap == "peers":
+        # peer topology: the destination set contains (some of) the sources themselves; connecting an entity to
+        # itself is accepted by World.connect, so "every source exactly once" holds here as well
+        dest = [src[i] if i < ns and (i % 2 == 0 or rseed & 64) else dest[i] for i in range(nd)]
+        C["calls_with_sources_in_destination_set"] += 1
     random.seed(rseed)
-    case = {"n_src": ns, "n_dest": nd, "evenly": evenly, "max_connects": maxc, "random_seed": rseed}
+    case = {"n_src": ns, "n_dest": nd, "evenly": evenly, "max_connects": maxc, "random_seed": rseed,
+            "sources_in_destination_set": overlap, "real_world": real}
+    inadmissible = (not evenly) and maxc is not None and ns > nd * maxc
     kw: Dict[str, Any] = {"evenly": evenly}
     if maxc is not None:
         kw["max_connects"] = maxc
@@ -81,12 +119,19 @@ def check_case(ns, nd, evenly, maxc, rseed, C, viol):
         # with two attribute pairs, with one, or with none (a relation only)
         attrs = (("a", ("b", "c")), ("a",), ())[(rseed >> 4) % 3]
         case["attrs"] = list(map(str, attrs))
-        ret = util.connect_randomly(w, src_arg, dest_arg, *attrs, **kw)
+        ret = util.connect_randomly(world, src_arg, dest_arg, *attrs, **kw)
     except Exception as e:  # noqa: BLE001
+        if inadmissible:
+            # more sources than the destinations can take: refusing is the only correct answer
+            C["inadmissible_requests_refused"] += 1
+            return
         viol("exception_on_admissible_input", case=case, error=f"{type(e).__name__}: {e}",
              connects_before_error=len(w.calls))
         return
+    if inadmissible:
+        C["inadmissible_requests_returned_normally"] += 1     # judged by the same postconditions: one of them must fail
     C["calls_evenly" if evenly else "calls_random"] += 1
+    C["calls_real_world"] += int(real)
     C["connect_calls_recorded"] += len(w.calls)
     per_src = Counter(c[0] for c in w.calls)
     per_dest = Counter(c[1] for c in w.calls)
@@ -135,14 +180,17 @@ def run_slice(job: dict) -> dict:
             for evenly in (True, False):
                 for maxc in ([None, 1, 2, 5] if evenly else [None, 1, 2, 3, 4]):
                     # (evenly=True: max_connects is documented as "only taken into account if evenly is False")
-                    if not evenly and maxc is not None and ns > nd * maxc:
-                        continue        # outside the documented precondition
+                    if not evenly and maxc is not None and ns > nd * (maxc + 1):
+                        continue        # far outside the documented precondition
                     for s in range(job["seeds"]):
                         k += 1
                         if k % W != w:
                             continue
                         rseed = H(job["seed"], ns, nd, evenly, maxc, s) % (1 << 31)
-                        check_case(ns, nd, evenly, maxc, rseed, C, viol)
+                        # (requests just beyond the precondition |src| <= |dest|*max_connects are kept: they must be
+                        # refused, or else fail a postcondition)
+                        check_case(ns, nd, evenly, maxc, rseed, C, viol,
+                                   overlap="peers" if (k // W) % 5 == 1 else "", real=(k // W) % 40 == 7)
                         res["evaluations"] += 1
                         if ns >= 2 and nd >= 2:
                             res["hashes"].add(H(ns, nd, evenly, maxc, rseed) % (1 << 52))
@@ -154,6 +202,7 @@ def run_slice(job: dict) -> dict:
         if ns % W != w:
             continue
         check_many_to_one(ns, C, viol, res)
+        check_many_to_one(ns, C, viol, res, dest_in_src=True)
     res["hashes"] = list(res["hashes"])
     res["counters"] = dict(C)
     return res
@@ -167,9 +216,11 @@ def replay(rep: dict) -> List[dict]:
         kw["kind"] = kind
         out.append(kw)
     if c and "n_dest" in c:
-        check_case(c["n_src"], c["n_dest"], c["evenly"], c["max_connects"], c["random_seed"], Counter(), viol)
+        check_case(c["n_src"], c["n_dest"], c["evenly"], c["max_connects"], c["random_seed"], Counter(), viol,
+                   overlap=c.get("sources_in_destination_set", ""), real=c.get("real_world", False))
     elif c and "src_set" in c:
-        check_many_to_one(c["n_src"], Counter(), viol, None, (c["src_set"], c["async_requests"]))
+        check_many_to_one(c["n_src"], Counter(), viol, None, (c["src_set"], c["async_requests"]),
+                          dest_in_src=c.get("dest_in_src", False))
     return out
 
 
@@ -178,6 +229,10 @@ def decide(m, tier):
     reasons = []
     if c.get("calls_evenly", 0) < 1000 or c.get("calls_random", 0) < 1000:
         reasons.append("fewer than 1000 completed calls per mode")
+    if c.get("inadmissible_requests_refused", 0) + c.get("inadmissible_requests_returned_normally", 0) < 100:
+        reasons.append("fewer than 100 requests just beyond the capacity of the destinations")
+    if c.get("calls_with_sources_in_destination_set", 0) < 200 or c.get("calls_real_world", 0) < 50:
+        reasons.append("too few calls with overlapping sets / on the real World")
     if c.get("saturating_cases", 0) < 50:
         reasons.append("fewer than 50 completed cases where the sources exactly saturate the destinations")
     return ("inconclusive" if reasons else "held"), reasons
@@ -189,7 +244,9 @@ def evidence(m, tier, seed):
                 "|src| <= |dest|*max_connects x random seeds, on a recording world; distinct_nontrivial = distinct "
                 "(sizes, mode, cap, seed) with at least two sources and two destinations; connect_many_to_one with the "
                 "source set as list / tuple / iterator / itertools.chain / generator / filter object / dict keys, async_requests on and off; "
-                "two, one or no attribute pairs; membership in the caller's own destination list judged after the call as well",
+                "two, one or no attribute pairs; every fifth case with sources inside the destination set (peer topology), the single destination "
+                "of connect_many_to_one among its sources; requests just beyond |src| <= |dest|*max_connects (must be refused or fail a "
+                "postcondition); every 40th case on the real World with real entities (connect recorded, then executed); membership in the caller's own destination list judged after the call as well",
         "exhaustive": False,
         "obligations": m["counters"].get("connect_calls_recorded", 0),
     }, "assumptions": ["the random module's global state is seeded per case"]}
